@@ -24,6 +24,7 @@ func allPropsUnsorted() []*propInfo {
 				"C07.6 (shared) AND / OR chains evaluate every term with the right short-circuit value. C14.3 / C14.6 (shared) the subscription's own expiry clock is restarted with its TTL (a subscription swept early takes its outstanding messages with it). C01.6 (shared) completed_at is always the current time; C14.1 / C15.1 (shared) a delivery's retention is the message retention and the expiry prune compares with the clock itself. NOT decided: clock arithmetic (that attempt_at/expires_at values make a message due again), database semantics, the history-level claim itself.",
 			Assumptions: []string{k1Assumption, "database executes the statements as ent renders them"},
 			Rules: []ruleFn{
+				{ID: "C17.5", Doc: "(shared, retention instances: an unset retention is stored as the default, not as zero — deliveries created with zero retention are expired at once and never offered) [dom] zero durations select the documented defaults", Run: ruleC17_5, Only: `retention`},
 				{ID: "C15.1", Doc: "(shared: the expiry prune removes only deliveries whose retention has lapsed) [atoms] exact selection per job; threshold", Run: ruleC15_1},
 				{ID: "C14.1", Doc: "(shared: retention of a delivery is the message retention) [dep] creation timestamps", Run: ruleC14_1},
 				{ID: "C01.6", Doc: "[dep] completed_at is always set to the current time, never to a request value", Run: ruleC01_6},
@@ -56,6 +57,8 @@ func allPropsUnsorted() []*propInfo {
 				"C07.6 (shared) chain evaluation; C02.4 also: payload / attributes handed to the client are the stored field itself on every path (no special-cased or recomputed value). C02.4 also: every content field of the publish parameters is written on every path to the publish of each message. NOT decided: JSON value equality through jsonb/text storage, duplicates within one response (primary-key fact), histories.",
 			Assumptions: []string{k1Assumption, "protobuf/ent field names correspond one-to-one as in the generated code"},
 			Rules: []ruleFn{
+				{ID: "C17.1", Doc: "(shared, dead-letter instances: the dead-letter topic stored at creation is the one the request names, not the source topic) [dep] create mapping", Run: ruleC17_1, Only: `DeadLetter|MaxDeliveryAttempts`},
+				{ID: "C17.2", Doc: "(shared, dead-letter instances: an update that clears the dead-letter policy really removes it — forwarding that is no longer configured does not happen) [atoms] update-mask locality", Run: ruleC17_2, Only: `noop-shortcut|dead_letter_policy`},
 				{ID: "C07.6", Doc: "(shared) leaf and combinator shapes (idiom-bound)", Run: ruleC07_6},
 				{ID: "C13.3", Doc: "[atoms] (shared) a snapshot records the ack state of ITS subscription only", Run: ruleC13_3},
 				{ID: "C02.1", Doc: "[atoms] pull scoping and response bound", Run: ruleC02_1},
@@ -75,6 +78,8 @@ func allPropsUnsorted() []*propInfo {
 				"C06.5 (shared) a nack selects only outstanding rows, so a late nack of an acked id neither forwards it to the dead-letter topic nor rewrites it. Deliberately not demanded: the completed_at IS NULL guard in modify-deadline (dropping it does not resurrect an acked message: the pull excludes completed rows). C01.2 (shared) ack statements are keyed by exactly the request's ids; C03.5 ack ids are converted completely and in place or the request fails; C04.9 (shared) no aliased predicate appends; C09.2 / C09.3 (shared) commit errors are reported. C03.6 every StreamingPull frame, the opening one included, reaches the streamer through adaptIn. C06.1 (shared) only pull, nack and the sweep dead-letter. C02.2 (shared) every delivery mutation is scoped to the resolved subscription. NOT decided: the history-level claim.",
 			Assumptions: []string{k1Assumption},
 			Rules: []ruleFn{
+				{ID: "C06.2", Doc: "(shared, sweep selection: the dead-letter sweep never takes an acknowledged delivery and forwards it) [atoms] sweep selection", Run: ruleC06_2, Only: `sweep-select`},
+				{ID: "C09.8", Doc: "(shared: an Acknowledge whose transaction failed is not reported as OK) [tab] no error is converted to a gRPC status with code OK", Run: ruleC09_8},
 				{ID: "C02.2", Doc: "(shared: a mutation that is not scoped to the resolved subscription un-acks or acks other subscriptions' deliveries) [atoms] (shared) no delivery mutation reaches another subscription's rows: other subscriptions' acks/seeks cannot make a message disappear", Run: ruleC02_2},
 				{ID: "C06.1", Doc: "(shared: only pull, nack and the sweep may dead-letter: a modify-deadline that does so forwards deliveries a late nack must not touch) [who] callers of deadLetterDelivery", Run: ruleC06_1, Ctrl: true},
 				{ID: "C03.6", Doc: "[dep] every StreamingPull frame (the opening one included) reaches the streamer through adaptIn", Run: ruleC03_6},
@@ -102,6 +107,7 @@ func allPropsUnsorted() []*propInfo {
 				"C04.8 also: modify-deadline ids of a stream request go to the delay action, never to the nack queue. NOT decided: the numeric backoff formula, jitter bound and saturation; PostgreSQL row-lock semantics; 'handed out again once the deadline has passed'.",
 			Assumptions: []string{k1Assumption, "FOR UPDATE SKIP LOCKED / SQLite immediate transactions give exclusivity (database semantics)"},
 			Rules: []ruleFn{
+				{ID: "C17.2", Doc: "(shared, retry_policy instances: an update of the retry policy stores the minimum and maximum the request gives, and clears the absent one) [atoms] update-mask locality", Run: ruleC17_2, Only: `retry_policy|noop-shortcut`},
 				{ID: "C04.9", Doc: "[alias] (shared) no predicate list is built by appending twice to one base slice with spare capacity", Run: ruleC04_9},
 				{ID: "C04.1", Doc: "[atoms] due-only selection; lookup unrestricted", Run: ruleC04_1},
 				{ID: "C04.2", Doc: "[atoms] row lock on every non-SQLite path", Run: ruleC04_2},
@@ -125,6 +131,7 @@ func allPropsUnsorted() []*propInfo {
 				"C13.1 (shared) a time seek re-opens only unexpired deliveries; C15.2 (shared) the schema is created with its foreign keys. NOT decided: ties of published_at inside one batch, interplay with seek-to-snapshot, the history-level order itself.",
 			Assumptions: []string{k1Assumption},
 			Rules: []ruleFn{
+				{ID: "C17.2", Doc: "(shared, ordering instances: only an update naming enable_message_ordering changes ordered delivery) [atoms] update-mask locality", Run: ruleC17_2, Only: `enable_message_ordering|ordered_delivery`},
 				{ID: "C13.1", Doc: "(shared: a backward seek re-opens only unexpired deliveries: an expired predecessor would be revived behind its successor) [atoms] seek-to-time is a partition", Run: ruleC13_1},
 				{ID: "C15.2", Doc: "[who] (option) the schema is created with its foreign keys (no WithForeignKeys(false))", Run: ruleC15_2fkOption},
 				{ID: "C01.5", Doc: "[who] (shared) the predecessor link and the attempt counter of a delivery are written by nobody but the creator / the pull", Run: ruleC01_5},
@@ -205,6 +212,8 @@ func allPropsUnsorted() []*propInfo {
 				"Revived messages get fresh retention: C13.1/C13.2 re-open mutators (evaluated under C13). C14.6 every write of a subscription's expires_at is now + its expiration TTL and derives from nothing that is the message retention. C14.6 also: where a statement stores a new ttl the deadline is computed from that value; C17.5 (shared) zero durations select the defaults. C14.4 also: the sweep selects live rows only (deleted_at IS NULL is required). NOT decided: exactness of durations, timing around deadlines, the interval codec.",
 			Assumptions: []string{k1Assumption},
 			Rules: []ruleFn{
+				{ID: "C17.2", Doc: "(shared, expiration_policy instances: an update of the TTL restarts the expiry clock with the new TTL) [atoms] update-mask locality", Run: ruleC17_2, Only: `expiration_policy`},
+				{ID: "C15.3", Doc: "(shared, expiry sweep: the service registered for subscription expiry runs the expiry action) [tab] registry", Run: ruleC15_3, Only: `NewDeleteExpiredSubscriptions`},
 				{ID: "C17.5", Doc: "[dom] (shared) zero durations select the documented defaults", Run: ruleC17_5},
 				{ID: "C14.1", Doc: "[dep] creation timestamps", Run: ruleC14_1},
 				{ID: "C14.2", Doc: "[atoms] not delivered after retention", Run: ruleC14_2},
@@ -227,6 +236,7 @@ func allPropsUnsorted() []*propInfo {
 				"C15.1 also: the expiry prune compares expires_at with the clock itself; C15.2 also: no WithForeignKeys(false); C14.4 / C01.6 (shared). NOT decided: metamorphic equality of traces, convergence at the fixpoint.",
 			Assumptions: []string{k1Assumption},
 			Rules: []ruleFn{
+				{ID: "C09.2", Doc: "(shared, prune rounds: a failed round is rolled back, so no job keeps the write lock and stays stuck) [dom] runOnce commits or rolls back", Run: ruleC09_2, Only: `runOnce`},
 				{ID: "C14.4", Doc: "(shared: a sweep that re-selects deleted subscriptions re-stamps them: they never age past the prune threshold) [atoms] expiry sweep", Run: ruleC14_4},
 				{ID: "C01.6", Doc: "[dep] completed_at is always set to the current time, never to a request value", Run: ruleC01_6},
 				{ID: "C15.2", Doc: "[who] (option) the schema is created with its foreign keys (no WithForeignKeys(false))", Run: ruleC15_2fkOption},
@@ -380,6 +390,7 @@ func allPropsUnsorted() []*propInfo {
 				"C08.8 (shared) the filter parser is built with exactly UseLookahead and Unquote(String); C07.6 Term negation is a parity of Not flags. C08.1 (shared) the stored filter text is the validated text. C08.9 (shared) the leaf forms capture the same kinds of attribute name. NOT decided: agreement with the documented Pub/Sub semantics over the infinite input space, boolean laws, precedence as implemented by participle.",
 			Assumptions: []string{"participle builds the parser the struct tags describe", k1Assumption},
 			Rules: []ruleFn{
+				{ID: "C17.2", Doc: "(shared, filter instances: a filter cleared by an update is no longer in force) [atoms] update-mask locality", Run: ruleC17_2, Only: `noop-shortcut|:filter`},
 				{ID: "C08.9", Doc: "[K7] the leaf forms accept the same kinds of attribute name; AND and OR are not mixable at one level", Run: ruleC08_9},
 				{ID: "C08.1", Doc: "(shared: the stored filter text is the validated text: the evaluated filter is the one the client wrote) [who][dom] validate before persist", Run: ruleC08_1},
 				{ID: "C08.8", Doc: "[who] the filter parser is built with exactly UseLookahead and Unquote(String): no option that changes the accepted language or rewrites tokens", Run: ruleC08_8},
